@@ -100,7 +100,7 @@ func Run(r *ev.Run) {
 		os.Exit(2)
 	}
 	trees := gen.Trees(r.Tier == "thorough")
-	r.Rule("G-goschema trees: every schema-valued / array-valued / map-valued field (23, incl. the draft-07 ones) nil / empty / empty with spare capacity / 1 / 2 children, nested to depth 2 under every field with every field (depth 3 on a stride), and every pair of fields. Per tree: (1) Marshal(clone)==Marshal(orig); (2) Schema pointer sets disjoint, nil stays nil and empty stays empty; (3) a parent holding both resolves; (4) for every Schema object of either tree and every exported field: assign a fresh value, insert into every schema map, append to every schema slice — the other tree's JSON must not change. Non-trivial = every tree (distinct by construction)")
+	r.Rule("G-goschema trees: every schema-valued / array-valued / map-valued field (23, incl. the draft-07 ones) nil / empty / empty with spare capacity / 1 / 2 children, nested to depth 2 under every field with every field (depth 3 on a stride), and every pair of fields. Every node carries every kind of non-schema field (Types, Const, Default, Examples, Enum, numeric pointers, DependentRequired, the string form of dependencies next to the schema form, PropertyOrder, Extra, booleans and strings). Per tree: (1) Marshal(clone)==Marshal(orig) and reflect.DeepEqual(clone, orig); (2) Schema pointer sets disjoint, nil stays nil and empty stays empty; (3) a parent holding both resolves; (4) for every Schema object of either tree and every exported field: assign a fresh value, insert into every schema map, append to every schema slice — the other tree's JSON must not change. Non-trivial = every tree (distinct by construction)")
 	r.Assume("slices and maps of non-schema values are shared by design: only assignment of whole fields is tested for them", "the field table is independent of reflection over Schema and cross-checked against it")
 	r.Set("trees", len(trees))
 	par.For(len(trees), r.Expired, func(i int, j par.Journal) {
@@ -127,6 +127,9 @@ func Run(r *ev.Run) {
 		}
 		if mo != mc {
 			fail("clone marshals differently", mo+" vs "+mc)
+		}
+		if !reflect.DeepEqual(orig, clone) {
+			fail("clone not deeply equal", mo)
 		}
 		var oo, co []*jsonschema.Schema
 		objects(orig, &oo, map[*jsonschema.Schema]bool{})
